@@ -98,6 +98,7 @@ type gen struct {
 	boxed    map[string]Val
 	lastNextKey string
 	nilSeen  map[string][]*ssa.BasicBlock
+	volatile map[string]bool // refs of cells captured by spawned goroutines
 	inheritNoPanic bool
 	dryWritten map[*ssa.BasicBlock]map[string]bool
 	resultVals []Val // bound while elaborating ensures
@@ -130,6 +131,30 @@ func (g *gen) stGet(st State, comp string) string {
 	g.ctx.declareOnce("comp0:"+n, fmt.Sprintf("(declare-const %s %s)", n, s))
 	st[comp] = n
 	return n
+}
+
+// importComp registers a heap component first seen in a dry run of another function, declaring the
+// struct datatypes its sort mentions. Returns false when the component is unknown.
+func (g *gen) importComp(comp string) bool {
+	if _, known := g.ctx.compSort[comp]; known {
+		return true
+	}
+	srt, ok := g.prog.drySorts[comp]
+	if !ok {
+		return false
+	}
+	for _, tok := range strings.FieldsFunc(srt, func(r rune) bool { return r == '(' || r == ')' || r == ' ' }) {
+		if strings.HasPrefix(tok, "S_") {
+			if t, ok := g.prog.dryStructs[tok]; ok {
+				g.ctx.sortOf(t)
+			}
+		}
+		if strings.HasPrefix(tok, "T_") {
+			return false // tuple-sorted components are never shared
+		}
+	}
+	g.ctx.comp(comp, srt)
+	return true
 }
 
 // epochKey is a pseudo-component that changes whenever everything is havoc'd (`modifies *`).
